@@ -60,7 +60,7 @@ impl G {
     fn in_link(&self, b: usize, ib: usize) -> Option<(usize, usize)> {
         self.links.iter().find(|l| l.2 == b && l.3 == ib).map(|l| (l.0, l.1))
     }
-    fn live(&self) -> Vec<usize> {
+    pub fn live(&self) -> Vec<usize> {
         (0..self.nodes.len()).filter(|i| self.nodes[*i].is_some()).collect()
     }
 }
@@ -534,7 +534,7 @@ pub fn eval(mode: &str, pats: &[(G, usize)], host: &G, heurs: &[Heur], o: &mut O
     }
 }
 
-fn gen_pats(rng: &mut Rng) -> Vec<(G, usize)> {
+pub fn gen_pats(rng: &mut Rng) -> Vec<(G, usize)> {
     let n = match rng.below(8) { 0 => 0, 1..=3 => 1, _ => rng.range(2, 4) };
     let mut v: Vec<(G, usize)> = vec![];
     for _ in 0..n {
